@@ -458,6 +458,17 @@ func fixLength(isResponse bool, status int, requestMethod string, header Header,
 	}
 
 	// Logic based on Content-Length
+	// RFC 7230 3.3.3 (4): several Content-Length fields with differing values
+	// make the message framing invalid; identical ones are collapsed.
+	if contentLens := header["Content-Length"]; len(contentLens) > 1 {
+		first := strings.TrimSpace(contentLens[0])
+		for _, ct := range contentLens[1:] {
+			if first != strings.TrimSpace(ct) {
+				return -1, &badStringError{"conflicting Content-Length", strings.Join(contentLens, ", ")}
+			}
+		}
+		header.Set("Content-Length", first)
+	}
 	cl := strings.TrimSpace(header.GetDirect("Content-Length"))
 	if cl != "" {
 		n, err := parseContentLength(cl)
